@@ -45,6 +45,7 @@ void Exec::run() {
 	world.step = 1e-6 * (double)plan.knobi("clk.step_us", 1);
 	world.fill_on = (int)plan.knobi("mem.fill", 0); world.fill_seed = (unsigned)plan.knobi("mem.fill", 0);
 	world.lu_refactor_every = (int)plan.knobi("lu.refactor_every", 0);
+	world.ladder_cut = (int)plan.knobi("ladder.cut", 0);
 	capture_drain(1); capture_drain(2);
 	for (auto &t : split(plan.knob("avoid"), ',')) if (!t.empty()) avoid.insert(t);
 	QSexact_set_precision(cur_precision);
@@ -63,6 +64,7 @@ void Exec::run() {
 		for (auto &kv : world.io_fired) { res.faults_fired[kv.first] += kv.second; } world.io_fired.clear();
 		for (auto &kv : world.flt_fired) { res.faults_fired[kv.first] += kv.second; } world.flt_fired.clear();
 		if (world.clk_fired) { res.faults_fired["clk.limit"] += world.clk_fired; world.clk_fired = 0; }
+		if (world.ladder_cut_in_op) res.faults_fired["clk.ladder_cut"] += world.ladder_cut_in_op;
 		if (world.cancel_fired) { res.faults_fired["cancel.abort"] += world.cancel_fired; world.cancel_fired = 0; }
 		if (world.lu_forced) { res.faults_fired["lu.refactor"] += world.lu_forced; world.lu_forced = 0; }
 		for (auto &sp : world.stray) { probe("stray_file_written"); T("  stray file " + sp); } world.stray.clear();
